@@ -2,7 +2,7 @@
    specification vocabulary in Acme.C03.Spec / SpecFloat; non-vacuity in Acme.C03.Examples). *)
 From Coq Require Import ZArith Reals List Bool.
 From Flocq Require Import Core IEEE754.BinarySingleNaN IEEE754.Binary IEEE754.Bits.
-From Acme.C03 Require Import Model Spec SpecFloat Proofs ProofsFloat Examples.
+From Acme.C03 Require Import Model Spec SpecFloat Proofs ProofsFloat Examples Shared SharedProofs.
 Import ListNotations.
 Local Open Scope Z_scope.
 
@@ -186,3 +186,16 @@ Print Assumptions mux_selector_minimal.
 Theorem mux_size_spec : forall c g, 1 <= c <= two63 -> 0 <= g < two63 - 64 -> mux_size c g = g + bit_width (c - 1).
 Proof. exact Proofs.mux_size_spec. Qed.
 Print Assumptions mux_size_spec.
+
+(* --- hypothesis made explicit: enum_size_spec is about enums that own their values (enum_run copies
+       (name, index) pairs).  Go's AddValue also accepts a value object that already belongs to another
+       enum (open finding D20 for enum values, C05); on the model with shared value objects
+       (Acme.C03.Shared) the width of the enum that is not the value's parent goes stale: *)
+Theorem enum_size_shared_value_refuted :
+  exists ops, let h := srun ops in
+    unshared h = false /\
+    se_size (h_a h) <> enum_width 1 (se_real_max h (h_a h)) /\
+    se_size (h_a h) = 1 /\ se_real_max h (h_a h) = 1000 /\
+    se_size (h_b h) = enum_width 1 (se_real_max h (h_b h)).
+Proof. exact SharedProofs.enum_size_shared_value_refuted. Qed.
+Print Assumptions enum_size_shared_value_refuted.
